@@ -469,6 +469,10 @@ func (tic *TermInCommittee) HandlePrepare(pm *interfaces.PrepareMessage) {
 		tic.logger.Info("LHMSG RECEIVED PREPARE IGNORE - signed header has message type %v", header.MessageType())
 		return
 	}
+	if !proofsvalidator.IsInMembers(tic.committeeMembers, sender.MemberId()) {
+		tic.logger.Info("LHMSG RECEIVED PREPARE IGNORE - sender %s is not a committee member", Str(sender.MemberId()))
+		return
+	}
 	if err := tic.keyManager.VerifyConsensusMessage(header.BlockHeight(), header.Raw(), sender); err != nil {
 		tic.logger.Info("LHMSG RECEIVED PREPARE IGNORE - verification failed for Prepare block-height=%v view=%d block-hash=%s err=%v", header.BlockHeight(), header.View(), header.BlockHash(), err)
 		return
@@ -555,6 +559,10 @@ func (tic *TermInCommittee) HandleCommit(cm *interfaces.CommitMessage) {
 
 	if header.MessageType() != protocol.LEAN_HELIX_COMMIT {
 		tic.logger.Info("LHMSG RECEIVED COMMIT IGNORE - signed header has message type %v", header.MessageType())
+		return
+	}
+	if !proofsvalidator.IsInMembers(tic.committeeMembers, sender.MemberId()) {
+		tic.logger.Info("LHMSG RECEIVED COMMIT IGNORE - sender %s is not a committee member", Str(sender.MemberId()))
 		return
 	}
 	if err := tic.keyManager.VerifyConsensusMessage(header.BlockHeight(), header.Raw(), sender); err != nil {
@@ -675,6 +683,9 @@ func (tic *TermInCommittee) isViewChangeValid(expectedLeaderFromNewView primitiv
 
 	if header.MessageType() != protocol.LEAN_HELIX_VIEW_CHANGE {
 		return errors.Errorf("VIEW_CHANGE signed header has message type %v", header.MessageType())
+	}
+	if !proofsvalidator.IsInMembers(tic.committeeMembers, sender.MemberId()) {
+		return errors.Errorf("VIEW_CHANGE sender %s is not a committee member", Str(sender.MemberId()))
 	}
 	if err := tic.keyManager.VerifyConsensusMessage(header.BlockHeight(), header.Raw(), sender); err != nil {
 		return errors.Wrapf(err, "keyManager.VerifyConsensusMessage failed")
